@@ -4,7 +4,7 @@ cd /verif
 TIER="${2:-quick}"
 for s in $1; do
   for p in C01 C02 C03 C04 C05 C06 C07 C08 C09 C10 C11 C12 C13 C14 C15 C16 C17; do
-    out=$(VERIF_SEED=$s ./check $p --tier $TIER 2>&1); rc=$?
+    out=$(VERIF_EVIDENCE_DIR=/tmp/sweep_evidence VERIF_SEED=$s ./check $p --tier $TIER 2>&1); rc=$?
     v=$(echo "$out" | grep -c "^VIOLATION"); u=$(echo "$out" | grep -c "^UNDECIDED")
     if [ $rc != 0 ] || [ $v != 0 ] || [ $u != 0 ]; then echo "seed=$s $p rc=$rc violations=$v undecided=$u"; echo "$out" | grep -E "VIOLATION|site=|UNDECIDED|CRASH|Error" | cut -c1-300 | head -6; fi
   done
